@@ -259,7 +259,7 @@ impl<const D: usize> GlobalTopologyModel<D> for ToroidalModel<D> {
             if !coord.is_finite() {
                 return Err(GlobalTopologyModelError::NonFiniteCoordinate { axis, value: coord });
             }
-            let wrapped = coord.rem_euclid(period);
+            let wrapped = crate::topology::spaces::toroidal::wrap_into_period(coord, period);
             *coord_ref = <T as NumCast>::from(wrapped).ok_or(
                 GlobalTopologyModelError::ScalarConversion {
                     axis,
